@@ -16,6 +16,9 @@
 //! documents (../c16_schema.rs — not by rip_openresponses' validator, whose verdict is only compared); stateless
 //! inputs are prefix-ordered; a marker is written at most once per call id; calls of the last round stay unanswered
 //! only for a named reason (O7); each output belongs to the call it is filed under (O8).
+//! (e) Sized runs (../c16_sized.rs): every kind of invalidity the generator knows x quoted payloads (tool outputs, call
+//! arguments) of 0 bytes .. 8 KiB on and next to every power of two and every integer constant of the code between the
+//! validator's verdict and the gate, in characters of 1-4 bytes at every alignment; same oracle.
 //! The validity handed to the model (`valids`) is the judge's verdict too, and check_case additionally demands that
 //! the model's own `items_ok` (the schema's value limits on input items) equals that verdict on every follow-up.
 use rip_provider_openresponses::{ParsedEvent, ParsedEventKind, ToolChoiceParam};
@@ -848,6 +851,20 @@ fn gen_loop(r: &mut Rng, i: usize) -> LoopCase {
 /// applies as it is.
 fn gen_sized(r: &mut Rng, p: &sized::SizedPlan, i: usize) -> LoopCase {
     let tag = format!("z{i}");
+    if sized::kind_is_tool_choice(p.kind) {
+        // the INITIAL request is invalid: a malformed tool_choice (type function without a name) that carries the payload
+        // itself — whatever quotes the offending instance quotes the payload
+        return LoopCase {
+            payloads: vec![p.pay.clone()],
+            stateless: p.stateless,
+            tool_choice: json!({"type": "function", "note": sized::payload_text(&p.pay)}),
+            choice_spec: None,
+            followup: None,
+            prompt: format!("sized {i} {} {}", sized::KINDS[p.kind], p.block),
+            rounds: vec![RoundSpec { mode: 0, events: vec![response_id_event(r, &format!("resp_{tag}_end")), json!({"type":"response.output_text.delta","delta":"done"})], done: true, expected: Some(vec![]), render: r.next(), tail: 0, lost: None }],
+            thread: p.thread,
+        };
+    }
     let (cname, cargs) = match p.carrier {
         0 => ("read", json!({"path": "big/p0.txt"})),
         1 => ("bash", json!({"command": "cat big/p0.txt", "cwd": "."})),
@@ -2017,7 +2034,7 @@ fn corpus_loops() -> Vec<LoopCase> {
 fn main() {
     let a = parse_args();
     let mut res = RunResult::new("C16", &a);
-    res.rule = "cases = (a) provider event lists for the collector from a clean grammar (unique ids, per-item order added/deltas/done, 5 argument deliveries) and a dirty one (missing/empty/shared/non-string ids, non-u64 output_index, any order, repeated events); (b) tool_choice values of every shape incl. malformed ones with probe names; (c) whole runs: config (history mode, tool_choice, follow-up message) x scripted provider rounds (clean/dirty events, [DONE] or not, HTTP error, dropped connection, random HTTP chunking, runs into the 32-call bound) with marker tools; non-trivial = at least one provider event; distinct by hash of the canonical case; answers end properly or (two in five) in a tail that only pipe.finish() delivers (CRLF body cut between CR and LF of the final blank line, LF + lone CR, [DONE] in the tail) or that is never dispatched (no final blank line, no line end, events after [DONE], empty body); (d) single answers of the same grammars and tails, any chunking, through the real pipe + collector; whole runs with such a tail (and a third of the others) are also compared from the bytes served".into();
+    res.rule = "cases = (a) provider event lists for the collector from a clean grammar (unique ids, per-item order added/deltas/done, 5 argument deliveries) and a dirty one (missing/empty/shared/non-string ids, non-u64 output_index, any order, repeated events); (b) tool_choice values of every shape incl. malformed ones with probe names; (c) whole runs: config (history mode, tool_choice, follow-up message) x scripted provider rounds (clean/dirty events, [DONE] or not, HTTP error, dropped connection, random HTTP chunking, runs into the 32-call bound) with marker tools; non-trivial = at least one provider event; distinct by hash of the canonical case; answers end properly or (two in five) in a tail that only pipe.finish() delivers (CRLF body cut between CR and LF of the final blank line, LF + lone CR, [DONE] in the tail) or that is never dispatched (no final blank line, no line end, events after [DONE], empty body); (d) single answers of the same grammars and tails, any chunking, through the real pipe + collector; whole runs with such a tail (and a third of the others) are also compared from the bytes served; (e) whole runs whose follow-up (or initial request) is schema-invalid in each of the known ways (call id of 65 / 70 / 300 characters or 65 two-byte characters, function name empty / dotted / with a space / non-ASCII / 65 characters, malformed tool_choice) or valid, and quotes a payload of 0 bytes .. 8 KiB (sizes p-1, p, p+1 for powers of two and for the integer constants read from the validation path of the tree under test) printed by read / bash cat or passed as write arguments, in characters of 1, 2, 3, 4 bytes, mixes and JSON-escaped characters, shifted by 0..width-1 bytes (a character across every byte offset), the invalid item in the same response or turns later".into();
     let mut st = schema::self_test();
     let mut known_vs_implementation = 0usize;
     for (b, want) in schema::known_bodies() {
@@ -2302,6 +2319,9 @@ fn main() {
     let consts = sized::source_constants();
     let pivots = sized::pivots(&consts, a.tier == "thorough");
     res.notes.push(format!("sized runs: integer constants read from create_response.rs / rip-openresponses lib.rs / the gate of stream_openresponses_request = {consts:?}; a character of every width is put across bytes {pivots:?} of the quoted payload; payload sizes {:?}", sized::size_ladder(&consts)));
+    if !sized::unreached(&consts).is_empty() {
+        res.notes.push(format!("sized runs: constants {:?} are beyond the payload sizes of this generator (16 KiB)", sized::unreached(&consts)));
+    }
     let n_before_sized = loops.len();
     if !skip_loop {
         let mut plans = sized::plans(&mut r, &consts, a.tier == "thorough");
@@ -2390,6 +2410,12 @@ fn main() {
             if mine != real && res.notes.len() < 8 {
                 res.notes.push(format!("case {case_id} body {k}: schema judge says valid={mine}, rip_openresponses::validate_create_response_body says valid={real}"));
             }
+        }
+        if let Some(b) = &e.rejected {
+            // the refusal frame reports the validator's messages for the refused body (model: payload_errors POST_KEEP)
+            let frame_errors: Vec<String> = o.frames.iter().rev().find(|f| f["type"] == "provider_event" && f["data"].is_null() && f["raw"].is_string() && f["errors"].as_array().map(|a| !a.is_empty()).unwrap_or(false)).and_then(|f| f["errors"].as_array().map(|a| a.iter().filter_map(|x| x.as_str().map(String::from)).collect())).unwrap_or_default();
+            let msgs = rip_openresponses::validate_create_response_body(b).err().unwrap_or_default();
+            res.bump(if frame_errors == msgs { "refusal-frame-errors=the-validator-messages" } else if frame_errors.len() == msgs.len() { "refusal-frame-errors=as-many-as-the-validator-messages-but-rewritten" } else { "refusal-frame-errors=another-number-than-the-validator-messages" });
         }
         if e.rejected.is_some() {
             // what made the refused payload invalid (first error of the schema judge, without the instance)
